@@ -65,6 +65,21 @@ def implOKB (m : NNet) : Bool :=
 end KV.Transform
 
 namespace KV.Transform
+/-- the implementation has a designated cell and every connected input pin of the instance belongs to an input port
+    that has a reader (outputs may be unconnected, dangling logic may be removed afterwards) -/
+def noIgnoredB (h : NNet) (c : Nat) (m : NNet) : Bool :=
+  match implShape m with
+  | none => false
+  | some sh =>
+    sh.des.isSome &&
+    ((sh.inPorts.zip (padTo (h.net.node c).ins sh.inPorts.length)).all fun p =>
+      !p.2.isSome || !((m.net.node p.1).outs.length == 0))
+
+/-- `NNet.wf` without the clause "no trailing `None` in a pin list" (`Line.remove()` leaves one in the pin list of a cell) -/
+def NNet.wfNoTrail (nn : NNet) : Bool :=
+  nn.names.size == nn.net.nodes.size && decide nn.keys.Nodup && nn.net.io.all (fun i => decide (i < nn.net.nodes.size)) &&
+  nn.pinsBack && nn.pinsFwd
+
 /-- `remove_dangling_nodes(root, own)` returns at once: `root` has a connected output, is a port, is a state element or
     does not belong to the substituted cell -/
 def keptRoot (nn : NNet) (own : List Nat) (root : Nat) : Bool :=
